@@ -268,7 +268,7 @@ def cleanupFailed (s : State) (h : Nat) : State × Out :=
   | none => (s, .bad)
 
 /-- `impl Drop for PendingLock`: a pending acquisition (queued, assigned but not polled again, or a
-never polled `lock_all_entries` item) is dropped -/
+never polled `lock_all_entries` item) is dropped. The clean-up looks the entry up with `peek`: no recency update. -/
 def cancel (s : State) (h : Nat) : State × Out :=
   if s.wedged then (s, .poisoned) else
   match s.hs h with
@@ -278,7 +278,7 @@ def cancel (s : State) (h : Nat) : State × Out :=
       | some m =>
         let m' := if m.holder = some h then handoff m h
                   else { m with queue := m.queue.erase h, refs := m.refs.erase h }
-        let s1 := ((s.setEnt hd.key m').dropHandle h).touch hd.key
+        let s1 := (s.setEnt hd.key m').dropHandle h
         if m'.refs.length = 0 then
           if m'.holder.isSome then (s.wedge, .panic .cancelTry)
           else if m'.value.isNone then (s1.removeKey hd.key, .unit) else (s1, .unit)
